@@ -203,12 +203,12 @@ def prepare(tier, seed):
     nprog = 3 if tier == "quick" else 16
     size = 6 if tier == "quick" else 9
     programs = [progen.gen_program(rng, "p%d" % i, i, rng.randrange(size - 2, size + 3)) for i in range(nprog)]
-    tag = "shared-%s-%d" % (tier, seed)
+    tag = "shared-%s-%d%s" % (tier, seed, build._suffix())
     d = gen_dir(tag)
     same = os.path.isdir(d) and all(os.path.exists(os.path.join(d, P.file)) and open(os.path.join(d, P.file)).read() == P.source for P in programs)
     if not same:
         d = write_crate(tag, programs)
-    target = os.path.join(build.BUILD, "gen-target")
+    target = os.path.join(build.BUILD, "gen-target" + build._suffix())
     import fcntl
     os.makedirs(build.BUILD, exist_ok=True)
     with open(os.path.join(build.BUILD, "gen.lock"), "w") as lock:
@@ -249,7 +249,7 @@ def check(prop, tier, seed, out):
     if prop == "C12":
         # the same programs under other codegen settings: the registry must not depend on link / constructor order
         for label, release, flags in variants:
-            t2 = os.path.join(build.BUILD, "gen-target-" + label)
+            t2 = os.path.join(build.BUILD, "gen-target-" + label + build._suffix())
             rc, log = cargo_build(d, t2, release=release, rustflags=flags)
             if rc != 0:
                 out.inconclusive_shard("variant %s failed to build" % label)
